@@ -222,6 +222,9 @@ def run(tier):
                       "backends": ["vm", "wasm"], "sched": True, "inputs": [[g] for g in grid]})
     breqs.append({"id": "index", "src": "fn dsp(x){\n  let a = [10, 20, 30]\n  let b = [(1, 2), (3, 4)]\n  (a[x], b[x].1)\n}\n", "n": len(grid),
                   "backends": ["vm", "wasm"], "sched": True, "inputs": [[g] for g in grid]})
+    # a numeric match casts its scrutinee to an integer: which arm a value selects must not depend on the runtime
+    breqs.append({"id": "match", "src": "fn dsp(x){\n  (match (x) { 0 => 5, 1 => 6, 2 => 8, _ => 7 }, match (x * 2) { 0 => 1, 3 => 2, _ => 3 })\n}\n",
+                  "n": len(grid), "backends": ["vm", "wasm"], "sched": True, "inputs": [[g] for g in grid]})
     pairs = [(a, b) for i, a in enumerate(grid) for j, b in enumerate(grid) if (i * 7 + j * 3) % 5 == 0]
     for f in binary:
         e = f"{f}(x, y)" if f[0].isalpha() else f"(x {f} y)"
